@@ -132,6 +132,39 @@ def histOps : List String :=
   ["reset", "geo", "root", "mem", "memw", "elem", "elemw", "set", "setm", "sete", "add", "addv", "toarr", "toobj", "remi", "remk", "clear", "cleardoc",
    "copydoc", "swapdoc", "shrink", "obs", "obsx", "failat", "failfrom", "nofail", "ledger", "hser", "liveq"]
 
+/-- cell of a C array after copyArray: `none` in the model = undefined behaviour of the conversion -/
+def caCell (cfg : Cfg) (kind : String) (v : Val) : String :=
+  let names := ["i8", "u8", "i16", "u16", "i32", "u32", "i64", "u64"]
+  match (names.zip Conv.allIT).find? (fun p => p.1 == kind) with
+  | some (_, t) => match Conv.asInt cfg v t with | some z => toString z | none => "UB"
+  | none =>
+    if kind == "f" then (match Conv.asFloatBits cfg v SF.b32 with | some b => hexNat b 8 | none => "UB")
+    else (match Conv.asFloatBits cfg v SF.b64 with | some b => hexNat b 16 | none => "UB")
+
+/-- the 0x5A fill pattern read back as a cell of that type -/
+def caFill (kind : String) : String :=
+  let names := ["i8", "u8", "i16", "u16", "i32", "u32", "i64", "u64"]
+  match (names.zip Conv.allIT).find? (fun p => p.1 == kind) with
+  | some (_, t) => let raw : Nat := (List.replicate t.bytes 0x5A).foldl (fun a b => a * 256 + b) 0; toString raw
+  | none => if kind == "f" then "5a5a5a5a" else "5a5a5a5a5a5a5a5a"
+
+/-- form 0: pointer + length n; form 1: T(&)[3]; form 2: T(&)[2][3] -/
+def copyArrOp (cfgs kind : String) (rest : List String) (form : Nat) : String :=
+  let cfg := cfgOfBits cfgs.toNat!
+  let (n, spec) := match form, rest with
+    | 0, [n, spec] => (n.toNat!, spec)
+    | _, [spec] => (3, spec)
+    | _, _ => (0, "")
+  match docOfSpec spec with
+  | none => "bad-doc"
+  | some v =>
+    if form == 2 then
+      let (rows, c) := CA.copy2 (caCell cfg kind) (CA.elems v) (List.replicate 2 (List.replicate 3 (caFill kind)))
+      s!"{c} {" ".intercalate rows.flatten}"
+    else
+      let (cells, c) := CA.copy1 (caCell cfg kind) (CA.elems v) (List.replicate n (caFill kind))
+      if n == 0 then s!"{c}" else s!"{c} {" ".intercalate cells}"
+
 def handle (st : DState) (ws : List String) : String × DState :=
   let pure (s : String) : String × DState := (s, st)
   if histOps.contains (ws.headD "") then
@@ -141,6 +174,15 @@ def handle (st : DState) (ws : List String) : String × DState :=
     (s!"{ws.headD ""} {res}|{" ".intercalate w.log.reverse}", { st with w := { w with log := [] } })
   else
   match ws with
+  | "copyarr" :: cfgs :: kind :: rest =>
+      -- copyarr cfg kind n spec | copyarr3 cfg kind spec | copyarr2 cfg kind spec ; copystr n spec
+      pure (copyArrOp cfgs kind rest 0)
+  | "copyarr3" :: cfgs :: kind :: rest => pure (copyArrOp cfgs kind rest 1)
+  | "copyarr2" :: cfgs :: kind :: rest => pure (copyArrOp cfgs kind rest 2)
+  | ["copystr", n, spec] =>
+      match docOfSpec spec with
+      | none => pure "bad-doc"
+      | some v => pure s!"1 {hexBytes (CA.copyStr v (List.replicate n.toNat! 0x5A))}"
   | ["jsonde", cfgs, _rk, lim, hex] =>
       let (c, v, pos) := run (cfgOfBits cfgs.toNat!) lim.toNat! (unhex hex)
       pure s!"{showCode c} {showVal v} {pos}"
